@@ -11,6 +11,7 @@ harness/common/env.py is deliberately NOT used (it replaces the functions verifi
 """
 from __future__ import annotations
 
+import linecache
 import math
 import os
 import random
@@ -1312,21 +1313,165 @@ class SigLock:
     def __init__(self):
         self._l = threading.RLock()
 
+    depth = 0  # holds by the owning thread
+
     def acquire(self, blocking=True, timeout=-1):
         if self._l.acquire(False):
+            self.depth += 1
             return True
         if not blocking:
             return False
         SigLock.waiting.set()
-        return self._l.acquire(True, timeout)
+        r = self._l.acquire(True, timeout)
+        if r:
+            self.depth += 1
+        return r
 
     def release(self):
+        self.depth -= 1
         self._l.release()
 
     __enter__ = acquire
 
     def __exit__(self, *a):
-        self._l.release()
+        self.release()
+
+
+# ------------------------------------------------------------------------------------------
+# enable_queries() racing an in-flight first call of a `cached` function that started while disabled
+
+INVAL_FNS = {"nv": ("get_terminal_name_version", ("gnv",), "gnv"), "co": ("get_fg_bg_colors", ("gco", "0"), "gco0")}
+INVAL_TERM = dict(ioctlFail=False, ansCell=True, ansArea=False, termux=False, kittyGfx=False, xtv=("kitty", "0.30.1"),
+                  envProg=None, envVer=None, fg=(1, 2, 3), bg=(4, 5, 6), da1=True)
+INVAL_WIN = (80, 24, 800, 480, 10, 20, 800, 480)
+_inval_memo = {}
+
+
+def cached_inval_steps():
+    """0 write the flag, 1 take the decorator's lock, 2 `cache.clear()`, 3 release — in the order
+    `enable_queries()` + the `invalidate` closure of `utils.cached` do them (AST)"""
+    import ast
+    import inspect
+    import textwrap
+
+    dec = ast.parse(textwrap.dedent(inspect.getsource(utils.cached.__wrapped__ if hasattr(utils.cached, "__wrapped__") else utils.cached)))
+    inv = [n for n in ast.walk(dec) if isinstance(n, ast.FunctionDef) and n.name == "invalidate"][0]
+    isteps = []
+
+    def walk(stmts):
+        for st in stmts:
+            if isinstance(st, ast.With):
+                locked = any(ast.unparse(i.context_expr) == "lock" for i in st.items)
+                if locked:
+                    isteps.append(1)
+                walk(st.body)
+                if locked:
+                    isteps.append(3)
+            elif isinstance(st, ast.Expr) and "cache.clear" in ast.unparse(st):
+                isteps.append(2)
+
+    walk(inv.body)
+    eq = ast.parse(textwrap.dedent(inspect.getsource(term_image.enable_queries))).body[0]
+    order = []
+    for n in ast.walk(eq):
+        if isinstance(n, ast.Assign) and any(isinstance(t, ast.Attribute) and t.attr == "_queries_enabled" for t in n.targets):
+            order.append((n.lineno, "flag"))
+        if isinstance(n, ast.Expr) and "_invalidate_cache" in ast.unparse(n):
+            order.append((n.lineno, "inval"))
+    order.sort()
+    out, done = [], False
+    for _, what in order:
+        if what == "flag":
+            out.append(0)
+        elif not done:
+            out += isteps
+            done = True
+    return out
+
+
+def inval_explore(fname):
+    if fname in _inval_memo:
+        return _inval_memo[fname]
+    attr, op, g = INVAL_FNS[fname]
+    wrapper = getattr(utils, attr)
+    lock_cell = [c for c in wrapper.__closure__ if isinstance(c.cell_contents, (utils._rlock_type, SigLock))][0]
+    cache = [c.cell_contents for c in wrapper.__closure__ if isinstance(c.cell_contents, dict)][0]
+    real_lock = lock_cell.cell_contents
+    fr_on = fresh_table(INVAL_TERM, INVAL_WIN, False, True)[g]
+    points = []
+    at = 0
+    try:
+        while at < 150:
+            reset_all()
+            vt.reset(INVAL_TERM, INVAL_WIN)
+            term_image.disable_queries()
+            sig = SigLock()
+            lock_cell.cell_contents = sig
+            SigLock.waiting = threading.Event()
+            st = dict(seen=0, started=False, info=None)
+            done = threading.Event()
+
+            def enable():
+                term_image.enable_queries()
+                done.set()
+
+            def local_trace(frame, event, arg):
+                if event in ("line", "return"):
+                    if frame.f_code.co_name == "query_terminal" and (
+                            event == "return" or "_queries_enabled" not in linecache.getline(
+                                frame.f_code.co_filename, frame.f_lineno)):
+                        st["read"] = True  # the body has consulted `_queries_enabled`
+                    if st["seen"] == at:
+                        held, stored, asked = sig.depth > 0, bool(cache), st.get("read", False)
+                        j = (5 if stored else 0) if not held else (4 if stored else 3 if asked else 2)
+                        st["info"] = (frame.f_code.co_name, frame.f_lineno, j)
+                        st["started"] = True
+                        threading.Thread(target=enable, daemon=True).start()
+                        for _ in range(4000):
+                            if done.is_set() or SigLock.waiting.is_set():
+                                break
+                            done.wait(0.005)
+                        else:
+                            raise RuntimeError("enable_queries neither finished nor blocked")
+                    st["seen"] += 1
+                return local_trace
+
+            def global_trace(frame, event, arg):
+                return local_trace if event == "call" and frame.f_code.co_filename == utils.__file__ else None
+
+            del EVENTS[:]
+            sys.settrace(global_trace)
+            try:
+                val = do_op(op)
+            finally:
+                sys.settrace(None)
+            if not st["started"]:
+                break
+            if not done.wait(20):
+                raise RuntimeError("enable_queries() never finished")
+            entry = list(cache.values())
+            lock_cell.cell_contents = real_lock
+            # what is memoized now, in the canonical format of the getter
+            final = do_op(op)
+            cls = "empty" if not entry else ("fresh" if final == fr_on else "stale")
+            points.append(dict(at=at, fn=st["info"][0], line=st["info"][1], j=st["info"][2], flag=int(utils._queries_enabled),
+                               cache=cls, rv="new" if val == fr_on else "old", final=final, fresh=fr_on))
+            at += 1
+    finally:
+        lock_cell.cell_contents = real_lock
+        reset_all()
+    _inval_memo[fname] = points
+    return points
+
+
+def inval_failures(fname):
+    for pt in inval_explore(fname):
+        if pt["final"] != pt["fresh"]:
+            return [Failure(f"invalidate_race/{INVAL_FNS[fname][0]}",
+                            f"enable_queries() at line event #{pt['at']} ({pt['fn']}:{pt['line']}) of an in-flight first call of "
+                            f"{INVAL_FNS[fname][0]}() that started while queries were disabled: afterwards it returns "
+                            f"{pt['final']} (memoized), a fresh computation gives {pt['fresh']}", extra=pt)]
+    return []
 
 
 def handover_scenario(toggle):
@@ -1523,6 +1668,7 @@ class C15(Property):
             f"def initAcr : Option Bool := {lopt(eval(acr0[0].split('=')[1]) if acr0 else 'missing')}\n"
             f"def initSupported : Option Bool := {lopt(sup0)}\n"
             f"def storeKeyIsFirstRead : Bool := {lb(store_key_is_first_read())}\n"
+            f"def cachedInvalSteps : List Nat := {cached_inval_steps()}\n"
             f"def handoverUnderCellLock : Bool := {lb(handover_under_cell_lock())}\n"
             f"def memoized : List String := [{', '.join(chr(34) + m + chr(34) for m in memoized_functions())}]\n"
             f"def swapOnSteps : List Nat := {toggle_steps(ti.enable_win_size_swap)}\n"
@@ -1543,6 +1689,12 @@ class C15(Property):
                 yield Case(" ".join(line.split()), dict(toggle=name, k=k), "race", True)
         for tg in ("swon", "qon"):
             yield Case(f"handover {tg}", dict(toggle=tg), "handover", True)
+        isteps = cached_inval_steps()
+        for fname in ("nv", "co"):
+            for j in sorted({p["j"] for p in inval_explore(fname)}):
+                # the first call of a cached function is in flight (j reader steps done) when enable_queries() runs
+                line = "racer 1 none %d %s %d" % (len(isteps), " ".join(map(str, isteps)), j)
+                yield Case(" ".join(line.split()) + f" {fname}", dict(fn=fname, j=j), "race", True)
         while True:
             r = rng.random()
             if r < 0.08:
@@ -1583,6 +1735,11 @@ class C15(Property):
             return res
         if op == "divbits":
             return "ok " + f64hex(case.data["a"] / case.data["b"])
+        if op == "racer":
+            pts = [p for p in inval_explore(case.data["fn"]) if p["j"] == case.data["j"]]
+            if not pts:
+                return "err no-such-point"
+            return "ok %d %s %s" % (pts[0]["flag"], pts[0]["cache"], pts[0]["rv"])
         if op == "handover":
             f = handover_scenario(case.data["toggle"])
             self.side[case.line] = f
@@ -1611,6 +1768,10 @@ class C15(Property):
                         g.case = case
                         self.more.append(g)
                 return f
+        if op == "racer" and case.data["j"] == 0:
+            f = inval_failures(case.data["fn"])
+            if f:
+                return f[0]
         if op == "handover":
             return self.side.pop(case.line, None) if case.line in self.side else handover_scenario(case.data["toggle"])
         if op == "race" and case.data["k"] == 0:
@@ -1646,6 +1807,13 @@ class C15(Property):
         out, seen = [], set()
         alphabet = [("qoff",), ("qon",), ("swon",), ("gcs",), ("gnv",), ("iok",), ("ksup",), ("isup",), ("gco", "0"),
                     ("sr", "dynamic"), ("gcr",), ("rs", (80, 30, 0, 0, 9, 18, 720, 540))]
+        isteps = cached_inval_steps()
+        for fname in ("nv", "co"):
+            for f in inval_failures(fname):
+                f.case = Case("racer 1 none %d %s 0 %s" % (len(isteps), " ".join(map(str, isteps)), fname), dict(fn=fname, j=0))
+                out.append(f)
+        if out:
+            return out
         for name in ("swon", "swoff", "qon"):
             for f in race_failures(name):
                 steps = toggle_steps(getattr(term_image, TOGGLE_FNS[name]))
